@@ -148,6 +148,7 @@ def gen_cases(ctx):
     for rep in range(2 if ctx.quick else 6):
         yield {"type": "threads", "threads": 8, "adds": 1500, "seed": int(rng.integers(0, 2**31))}
     yield H.zipf_case(rng, ctx)
+    yield H.huge_list_case(rng)
     # scripted: an all-NUL key holding 97% of the stream (a packed integer 0) must be reported first
     yield {"type": "history", "cfg": {"kind": "hh", "width": 2, "depth": 2, "max_key_len": 4}, "n": 1,
            "events": [[0, ["add", "00000000", 97]], [0, ["add", "61", 2]], [0, ["add", "", 1]]]}
